@@ -318,10 +318,11 @@ def run(ctx):
     NCH = 64
 
     def work(col, ci):
+        if ci == 0:
+            process_scheduler(col, scratch)
         for j in range(ci, len(cases), NCH):
             run_one(col, scratch, *cases[(j + ctx.seed) % len(cases)])
 
-    process_scheduler(ctx.col, scratch)
     core.pmap(ctx, work, NCH, timeout=7200)
     ctx.coverage_extra["runs"] = len(cases)
     ctx.rule = ("frames (two row pools incl. a degenerate extent, n rows, either geometry active) x input partitions 1..3 x "
